@@ -396,6 +396,7 @@ type sPDR struct {
 	Decap   bool     `json:"decap,omitempty"`
 	FAR     uint32   `json:"far"`
 	QERs    []uint32 `json:"qers,omitempty"`
+	BadSDF  bool     `json:"badsdf,omitempty"` // an SDF Filter IE with the FD flag and an empty description: the PDR is refused
 }
 
 type sFAR struct {
@@ -483,6 +484,9 @@ func vPDRIE(grp uint16, p sPDR) *vIE {
 	}
 	if p.SDF != "" {
 		pdi = append(pdi, vFromIE(ie.NewSDFFilter(p.SDF, "", "", "", 0)))
+	}
+	if p.BadSDF {
+		pdi = append(pdi, &vIE{T: ie.SDFFilter, P: []byte{0x01, 0x00, 0x00, 0x00}})
 	}
 	if p.App != "" {
 		pdi = append(pdi, vFromIE(ie.NewApplicationID(p.App)))
